@@ -161,6 +161,24 @@ ONE={
 "C13-B7":("sync victim popularity summed in a u8, early exit removed","18 or more popular residents in the victim prefix of a heavy newcomer"),
 "C16-A7":("`set_instant_if_later`: compare under a read lock, store under a second write lock (as C02-A2)","two racing invalidate_all calls; iteration"),
 "C16-B7":("unsync `get` records the hit before the expiry test","tti; > 100 entries idle-expired at once; get of a leftover, then iteration"),
+"C01-A8":("`set_instant_if_later` uses `try_write()` (as C02-B5)","invalidate_all beside readers: real threads"),
+"C01-B8":("deprecated `get_if_present` served by a new `peek` without the valid_after / expiry filter (as C02-A8)","get_if_present on an invalidated or expired, unpurged entry"),
+"C02-A8":("deprecated `get_if_present` reads the map without the valid_after / expiry checks","get_if_present after invalidate_all, before the sweep"),
+"C02-B8":("ttl/tti blocks moved ahead of the valid_after block in both expiry predicates","ttl and tti both set; invalidate_all then get"),
+"C04-A8":("sync update path subtracts the op's `old_weight` (as C03-A5)","re-insert of a key inside a window of `handle_upsert`: real threads"),
+"C04-B8":("unsync `build_with_hasher` passes no weigher","unsync cache built with weigher and custom hasher"),
+"C06-A8":("sync iterator filter returns 'not expired' early for dirty entries (as C05-A7)","tti; unapplied write; iterate after the deadline"),
+"C06-B8":("unsync admission-with-victims builds the access-order node without a timestamp","tti; full cache; newcomer admitted over a victim; no get/update before its deadline"),
+"C08-A8":("sync admission no longer checks that the map entry owns the victim node (revert of the R3 repair)","invalidate(k) preempted before its Remove op is queued, insert(k), full cache, popular heavy newcomer"),
+"C08-B8":("unsync admission-with-victims creates the write-order node only if tti is set","ttl only; admitted newcomer; update of it"),
+"C10-A8":("sync publishes the counters only 'if changed', comparing the weighted size with the entry count","weighted size after a run equals the previously published entry count"),
+"C10-B8":("unsync `handle_update` applies the weight change as an i32 difference","weights above i32::MAX"),
+"C14-A8":("sketch saturation test lost its `& 0xF`","a counter at 15 with a non-zero neighbour nibble"),
+"C14-B8":("`RESET_MASK` lost a digit","aging step; keys whose counter is the top nibble of a word"),
+"C15-A8":("sync iterator filter stamps `last_accessed = now` on entries with a pending write","tti; iterate while an insert is queued and the clock has moved"),
+"C15-B8":("unsync `contains_key` shares a prologue with `get` that increments the sketch","full cache; contains_key on an absent key; admission decided by popularity"),
+"C17-A8":("unsync `get` checks idle expiry with `time_to_live` (as C06-A)","> 100 idle-expired entries; get of a leftover"),
+"C17-B8":("sync sketch threshold `(max_cap + 1) / 2`","max_capacity == u64::MAX"),
 "C17-B4":("unsync `with_everything` drops zero durations","time_to_live / time_to_idle of exactly 0"),
 }
 rows=[]
@@ -289,6 +307,11 @@ times in the C12/C13/C08 profiles; it is reported by C08 (overflow panic in the
 debug build), as are `C13-A7` and `C08-B7` by C08 / C17 respectively.
 `C03-A7`/`C10-A7` are reported by the committed regression replay of the repaired
 defect R1.
+
+Eighth round (ids ending in `8`; C01, C02, C04, C06, C08, C10, C14, C15, C17):
+all 18 caught at once, most of them variants of earlier changes (`C08-A8` is
+reported by the committed regression replay of R3, `C17-A8` by C06, `C04-A8` by
+C10, `C02-A8` by C01/C07).
 
 Not caught (or caught only elsewhere), with the reason:
 * `C13-A5` — needs five invalidations still queued behind the newcomer's insert.
